@@ -9,6 +9,14 @@ import os
 import pickle
 import time
 
+DEBUG = os.environ.get('VERIF_FORKDEBUG')
+
+
+def dbg(msg):
+    if DEBUG:
+        with open(DEBUG, 'a') as f:
+            f.write(f'{time.time():.3f} {os.getpid()} {msg}\n')
+
 
 class ForkCtl:
     def __init__(self, ctx, scratch, tokens, max_waiting=300):
@@ -41,10 +49,15 @@ class ForkCtl:
                 self.alive.value -= 1
             return None
         if pid:
+            try:
+                open(os.path.join(self.scratch, f'pid-{pid}'), 'w').close()       # lets the root notice a child that died
+            except OSError:
+                pass
             return 'parent'
         self.is_child = True
         self.my_id = my_id
         self.tokens.acquire()                      # wait for a CPU
+        dbg('child-acquired')
         with self.waiting.get_lock():
             self.waiting.value -= 1
         return 'child'
@@ -57,14 +70,48 @@ class ForkCtl:
                 pickle.dump(payload, f)
             os.rename(path + '.tmp', path)
         finally:
+            try:
+                open(os.path.join(self.scratch, f'done-{os.getpid()}'), 'w').close()
+            except OSError:
+                pass
             self.tokens.release()
+            dbg('child-released')
             with self.alive.get_lock():
                 self.alive.value -= 1
             os._exit(0)
 
+    def _reap_dead(self):
+        """A forked explorer that was killed (OOM, segfault) can neither report nor release its CPU token: account for it."""
+        names = set(os.listdir(self.scratch))
+        for name in names:
+            if not name.startswith('pid-'):
+                continue
+            pid = name[4:]
+            if f'done-{pid}' in names:
+                continue
+            try:
+                os.kill(int(pid), 0)
+                continue                          # still running (or waiting for a token)
+            except ProcessLookupError:
+                pass
+            except PermissionError:
+                continue
+            # dead without a report; give its own exit path a moment (it writes done- before leaving)
+            if f'done-{pid}' in set(os.listdir(self.scratch)):
+                continue
+            open(os.path.join(self.scratch, f'done-{pid}'), 'w').close()
+            self.crashed += 1
+            with self.alive.get_lock():
+                self.alive.value -= 1
+            self.tokens.release()
+            dbg(f'reaped-dead {pid}')
+
     def wait_all(self, deadline=None):
         """Root: give up the own CPU token while waiting, then collect the partial results."""
         self.tokens.release()
+        dbg('root-released')
+        self.crashed = 0
+        last_scan = time.time()
         try:
             while True:
                 with self.alive.get_lock():
@@ -72,6 +119,9 @@ class ForkCtl:
                         break
                 if deadline is not None and time.time() > deadline + 60:
                     return None
+                if time.time() - last_scan > 2.0:
+                    last_scan = time.time()
+                    self._reap_dead()
                 time.sleep(0.02)
         finally:
             self.tokens.acquire()
